@@ -536,5 +536,16 @@ func genExh(tier string) []*tcase {
 			cases = append(cases, &tcase{id: fmt.Sprintf("exhF%d", n), label: "exhF", dir: d, latest: latest})
 		}
 	}
+	// first file with a re-created name: 9, 10, 11 statements (statement-by-statement vs whole-file path)
+	for _, fill := range []int{4, 5, 6} {
+		ss := append([]stmt(nil), init...)
+		ss = append(ss, stmt{k: "ct", t: "tmp", cols: []scol{idCol}}, stmt{k: "dt", t: "tmp"}, stmt{k: "ct", t: "tmp", cols: []scol{idCol, a}})
+		for i := 0; i < fill; i++ {
+			ss = append(ss, stmt{k: "ok"})
+		}
+		n++
+		d := &mdir{files: []mfile{buildFile(1, false, ss, n%16)}, label: "exhF"}
+		cases = append(cases, &tcase{id: fmt.Sprintf("exhF%d", n), label: "exhF", dir: d, latest: 1})
+	}
 	return cases
 }
